@@ -144,20 +144,27 @@ C("mako.util:FastEncodingBuffer.getvalue",
 # ---------------------------------------------------------------------------
 # callable specs: the induction hypothesis for render callables (R3)
 
-_BAL_MOD = ["context._buffer_stack", "context.caller_stack", "ptr(context.caller_stack.nextcaller)",
-            "heap('list:Str')", "heap('f:FastEncodingBuffer.data')", "heap('f:FastEncodingBuffer.write')",
-            "heap('f:FastEncodingBuffer.encoding')"]
-_BAL_POST = [
-    ("bstack-same", "context._buffer_stack == old(context._buffer_stack)"),
-    ("cstack-same", "context.caller_stack == old(context.caller_stack)"),
-    ("nextcaller-same", "same(context.caller_stack.nextcaller, old(context.caller_stack.nextcaller))"),
-    ("existing-buffers-keep-fields",
-     "forall(lambda b: implies(0 < b and b < old(alloc), same(bufdata(b), old(bufdata(b))) and same(bufwrite(b), old(bufwrite(b))) and bufenc(b) == old(bufenc(b))))"),
-    ("below-top-untouched",
-     "forall(lambda i: content(context._buffer_stack[i].data) == old(content(context._buffer_stack[i].data)), 0, len(context._buffer_stack) - 1)"),
-    ("top-extended",
-     "implies(len(context._buffer_stack) >= 1, prefix_of(old(content(context._buffer_stack[len(context._buffer_stack) - 1].data)), content(context._buffer_stack[len(context._buffer_stack) - 1].data)))"),
-]
+def balanced(ctx):
+    """(modifies, postconditions) of the induction hypothesis for a render callable that runs
+    against the Context expression `ctx`."""
+    mod = ["%s._buffer_stack" % ctx, "%s.caller_stack" % ctx, "ptr(%s.caller_stack.nextcaller)" % ctx,
+           "heap('list:Str')", "heap('f:FastEncodingBuffer.data')", "heap('f:FastEncodingBuffer.write')",
+           "heap('f:FastEncodingBuffer.encoding')"]
+    post = [
+        ("bstack-same", "CTX._buffer_stack == old(CTX._buffer_stack)"),
+        ("cstack-same", "CTX.caller_stack == old(CTX.caller_stack)"),
+        ("nextcaller-same", "same(CTX.caller_stack.nextcaller, old(CTX.caller_stack.nextcaller))"),
+        ("existing-buffers-keep-fields",
+         "forall(lambda b: implies(0 < b and b < old(alloc), same(bufdata(b), old(bufdata(b))) and same(bufwrite(b), old(bufwrite(b))) and bufenc(b) == old(bufenc(b))))"),
+        ("below-top-untouched",
+         "forall(lambda i: content(CTX._buffer_stack[i].data) == old(content(CTX._buffer_stack[i].data)), 0, len(CTX._buffer_stack) - 1)"),
+        ("top-extended",
+         "implies(len(CTX._buffer_stack) >= 1, prefix_of(old(content(CTX._buffer_stack[len(CTX._buffer_stack) - 1].data)), content(CTX._buffer_stack[len(CTX._buffer_stack) - 1].data)))"),
+    ]
+    return mod, [(l, e.replace("CTX", ctx)) for l, e in post]
+
+
+_BAL_MOD, _BAL_POST = balanced("context")
 
 FUNSPEC("balanced",
         params={"*args": "Star", "**kwargs": "Star"}, returns="Any",
@@ -177,6 +184,7 @@ C("mako.runtime:capture",
   returns="Any",
   requires=[("stack-nonempty", "len(context._buffer_stack) >= 1"),
             ("wf", "allocated(context._buffer_stack)")],
+  modifies=_BAL_MOD,
   ensures=[("stack-restored", "context._buffer_stack == old(context._buffer_stack)"),
            ("output-untouched",
             "forall(lambda i: content(context._buffer_stack[i].data) == old(content(context._buffer_stack[i].data)), 0, len(context._buffer_stack))"),
@@ -195,6 +203,7 @@ C("mako.runtime:supports_caller.wrap_stackframe",
   captures={"func": "Fun[balanced_ctx]"},
   returns="Any",
   requires=[("stack-nonempty", "len(context._buffer_stack) >= 1")],
+  modifies=_BAL_MOD,
   ensures=[("cstack-restored", "context.caller_stack == old(context.caller_stack)"),
            ("nextcaller-restored", "same(context.caller_stack.nextcaller, ite(truthy(old(context.caller_stack.nextcaller)), old(context.caller_stack.nextcaller), None))"),
            ("bstack-same", "context._buffer_stack == old(context._buffer_stack)")],
@@ -203,8 +212,12 @@ C("mako.runtime:supports_caller.wrap_stackframe",
                             ("bstack-same", "context._buffer_stack == old(context._buffer_stack)")]}},
   props=["C05", "C13"])
 
-FUNSPEC("balanced_ctx",
-        params={"ctx": "Context", "*args": "Star", "**kwargs": "Star"}, returns="Any",
-        requires=[("stack-nonempty", "len(context._buffer_stack) >= 1"), ("same-ctx", "same(ctx, context)")],
-        modifies=_BAL_MOD, ensures=_BAL_POST, raises={"*": {"ensures": _BAL_POST}},
-        note="as `balanced`, for callables that receive the context as first argument")
+_CTX_MOD, _CTX_POST = balanced("ctx")
+
+for _name in ("balanced_ctx", "render_callable"):
+    FUNSPEC(_name,
+            params={"ctx": "Context", "*args": "Star", "**kwargs": "Star"}, returns="Any",
+            requires=[("stack-nonempty", "len(ctx._buffer_stack) >= 1")],
+            modifies=_CTX_MOD, ensures=_CTX_POST, raises={"*": {"ensures": _CTX_POST}},
+            note="induction hypothesis (R3) for a render callable receiving the Context as first argument: "
+                 "both stacks restored on every exit, only the top buffer extended")
